@@ -33,6 +33,7 @@ type SpecEnv struct {
 	clause   *Clause
 	curLoop  *loopInfo
 	cellSt   *State
+	mapViews map[int][2]*Term // rec-spec map parameters: placeholder id -> (domain, values) arrays
 }
 
 type specErr struct{ msg string }
@@ -365,6 +366,14 @@ func (env *SpecEnv) ident(name string) (*Term, types.Type) {
 					if pv, ok := env.e.params[name]; ok {
 						return pv.T, v.Type()
 					}
+					// captured variable of a closure
+					for _, fv := range env.e.fn.FreeVars {
+						if fv.Name() == name {
+							if pt, ok := fv.Type().(*types.Pointer); ok {
+								return env.e.load(env.cur, env.e.val(env.cur, fv).T, pt.Elem()), pt.Elem()
+							}
+						}
+					}
 				}
 			}
 		}
@@ -372,6 +381,15 @@ func (env *SpecEnv) ident(name string) (*Term, types.Type) {
 	if env.e != nil {
 		if pv, ok := env.e.params[name]; ok && env.scopePos.IsValid() {
 			return pv.T, env.e.paramTy[name]
+		}
+		if env.e.fn != nil {
+			for _, fv := range env.e.fn.FreeVars {
+				if fv.Name() == name {
+					if pt, ok := fv.Type().(*types.Pointer); ok {
+						return env.e.load(env.cur, env.e.val(env.cur, fv).T, pt.Elem()), pt.Elem()
+					}
+				}
+			}
 		}
 		if g, ok := env.e.ghost[name]; ok {
 			return g, nil
@@ -585,6 +603,9 @@ func (env *SpecEnv) tr(x *SExpr) (*Term, types.Type) {
 		case *types.Slice:
 			return env.e.load(env.cur, IdxLoc(SArr(bv), Add(SOff(bv), iv)), t.Elem()), t.Elem()
 		case *types.Map:
+			if v, ok := env.mapViews[bv.id]; ok {
+				return Select(v[1], iv), t.Elem()
+			}
 			_, _, vc, vs := mapClasses(t)
 			return Select(Select(env.e.getMem(env.cur, vc, vs), bv), iv), t.Elem()
 		case *types.Array:
@@ -863,6 +884,9 @@ func (env *SpecEnv) call(x *SExpr) (*Term, types.Type) {
 				if !ok {
 					env.fail("has() needs a map")
 				}
+				if v, ok := env.mapViews[m.id]; ok {
+					return Select(v[0], k), types.Typ[types.Bool]
+				}
 				d, ds, _, _ := mapClasses(t)
 				return And(Neq(m, NilLoc), Select(Select(env.e.getMem(env.cur, d, ds), m), k)), types.Typ[types.Bool]
 			case "seen":
@@ -878,6 +902,16 @@ func (env *SpecEnv) call(x *SExpr) (*Term, types.Type) {
 					}
 				}
 				env.fail("seen(): loop is not a map range")
+			case "callresult":
+				// first result of the (unique) earlier call to the named function in this unit
+				idx := "0"
+				if len(args) > 1 {
+					idx = args[1].Name
+				}
+				if r, ok := env.e.callResults[args[0].Name+"/"+idx]; ok {
+					return r.v, r.t
+				}
+				env.fail("callresult(%s): no such contracted call was executed before this point", args[0].Name)
 			case "fresh":
 				v, _ := env.tr(args[0])
 				if env.old == nil {
@@ -1042,6 +1076,21 @@ func (env *SpecEnv) applySpec(sf *SpecFunc, args []*SExpr) (*Term, types.Type) {
 		if rt == nil {
 			env.fail("spec %s: cannot resolve result type %s", sf.Name, sf.Result)
 		}
+		// map parameters are passed as (domain, values) arrays
+		var callArgs []*Term
+		for i, v := range avs {
+			if mt, ok := types.Unalias(ats[i]).Underlying().(*types.Map); ok {
+				if vw, ok := env.mapViews[v.id]; ok {
+					callArgs = append(callArgs, vw[0], vw[1])
+				} else {
+					d, ds, vc, vs := mapClasses(mt)
+					dom := Ite(Eq(v, NilLoc), ConstArray(arrayElemSort(ds), False), Select(env.e.getMem(env.cur, d, ds), v))
+					callArgs = append(callArgs, dom, Select(env.e.getMem(env.cur, vc, vs), v))
+				}
+			} else {
+				callArgs = append(callArgs, v)
+			}
+		}
 		name := "spec!" + sf.Name
 		if !recSpecDone[name] {
 			recSpecDone[name] = true
@@ -1050,8 +1099,20 @@ func (env *SpecEnv) applySpec(sf *SpecFunc, args []*SExpr) (*Term, types.Type) {
 			n.vars = map[string]specVar{}
 			n.scopePos = token.NoPos
 			var pvs []*Term
+			n.mapViews = map[int][2]*Term{}
 			for i, p := range sf.Params {
 				bv := BVar("a!"+p.Name, sortOf(ats[i]))
+				if mt, ok := types.Unalias(ats[i]).Underlying().(*types.Map); ok {
+					_, ds, _, vs := mapClasses(mt)
+					dom := BVar("a!"+p.Name+"!dom", arrayElemSort(ds))
+					val := BVar("a!"+p.Name+"!val", arrayElemSort(vs))
+					ps = append(ps, fmt.Sprintf("(%s %s)", dom.Name, dom.Sort), fmt.Sprintf("(%s %s)", val.Name, val.Sort))
+					views := n.mapViews
+					n = n.with(p.Name, bv, ats[i])
+					n.mapViews = views
+					n.mapViews[bv.id] = [2]*Term{dom, val}
+					continue
+				}
 				pvs = append(pvs, bv)
 				ps = append(ps, fmt.Sprintf("(%s %s)", bv.Name, bv.Sort))
 				n = n.with(p.Name, bv, ats[i])
@@ -1094,7 +1155,7 @@ func (env *SpecEnv) applySpec(sf *SpecFunc, args []*SExpr) (*Term, types.Type) {
 			}
 			TC.order = append(TC.order, name)
 		}
-		return App(name, sortOf(rt), avs...), rt
+		return App(name, sortOf(rt), callArgs...), rt
 	}
 	n := &defEnv
 	n.vars = map[string]specVar{}
@@ -1199,7 +1260,11 @@ func (env *SpecEnv) pureCall(fn *SExpr, args []*SExpr) (*Term, types.Type, bool)
 	}
 	rt := sig.Results().At(0).Type()
 	con.used++
-	return UF("pure!"+key, sortOf(rt), as...), rt, true
+	name := "pure!" + key
+	if sig.Variadic() {
+		name = fmt.Sprintf("%s/%d", name, len(args)-(sig.Params().Len()-1))
+	}
+	return UF(name, sortOf(rt), as...), rt, true
 }
 
 func funcObjKey(f *types.Func) string {
